@@ -34,12 +34,13 @@ PROP = {
                   "the bridge of the Pratt argument) and pinned in shape (tables_pinned, kind_precedences_pinned, "
                   "other_powers_pinned). Theorems on the ports, for ALL inputs: expr_roundtrip_partial = parseAll (printE e) = "
                   "some e for every well-formed expression of the fragment (prefix operators, references, force, all 19 "
-                  "binary operators with associativity, casts with type annotations, conditional, member / index access, "
+                  "binary operators with associativity, casts with type annotations, conditional, member / index access, invocation "
+                  "with labelled arguments, "
                   "literals, arbitrarily nested) by the standard Pratt induction (expr_parse_print: the generalised statement "
                   "over right binding power and token suffix); well-formedness = parser-producible minus the recorded findings "
                   "(&(&x), comparison chains); type_roundtrip for the type sub-language (nominal / optional / reference incl. "
                   "the lexer's ?? merging); string_escape_roundtrip for every string incl. \\u{...}; kernel-checked witnesses of "
-                  "the repaired defects and of the recorded one (ref_of_ref_witness). `_partial`: invocation, array / dictionary "
+                  "the repaired defects and of the recorded one (ref_of_ref_witness). `_partial`: type arguments, array / dictionary "
                   "/ string / path literals, create / destroy / attach, function expressions, statements and declarations are "
                   "not in the ports - CC only. CC stream `pp`: grammar-generated expressions (sub-expressions parenthesised at "
                   "random so every tree shape occurs), types, whole programs, strings: Go parse -> Prettier(Doc) -> re-parse -> "
